@@ -16,10 +16,15 @@
         -> seeded_entry_points_function_of_seed    instantiated with the generated graph (any dispatch)
         -> explicit_seed_ignores_global            a given seed never consults the global generator
         -> unforwarded_seed_can_differ             the obligation is needed (shape of F-C11-1)
+        -> ambient_conditional_use_can_differ      a use of the generator that is conditional on ambient state (logging
+                                                   level, environment, thread count) is never closed, and it is needed:
+                                                   the same seed gives different draws under two ambient states
    * "trained models do not depend on the number of worker or backend threads or on the similarity
       block size"
         -> chunking_irrelevant                     for every chunk/block size the joined result of the three
                                                    fork-join loops is the row-wise result
+        -> sequential_fill_blocking_irrelevant     rows drawn in order from ONE generator are the same whatever the
+                                                   blocking; one child generator per block (thread) is not
            PARTIAL: that each row's arithmetic (BLAS / torch kernels) gives the same bits under different
            thread counts is a runtime fact; it is exercised in separate processes, not proved
    * "Rankers configured with user-derived seeds return the same list for a given user no matter which
@@ -79,6 +84,13 @@ Theorem unforwarded_seed_can_differ :
 Proof. exact unclosed_can_differ. Qed.
 Print Assumptions unforwarded_seed_can_differ.
 
+Theorem ambient_conditional_use_can_differ :
+  demo_run [SCond "logging-level" SDraw; SDraw] 42 0 <> demo_run [SCond "logging-level" SDraw; SDraw] 42 1 /\
+  demo_run [SDraw; SDraw] 42 0 = demo_run [SDraw; SDraw] 42 1 /\
+  forall w s, stmt_closed (SCond w s) = false.
+Proof. exact ambient_conditional_can_differ. Qed.
+Print Assumptions ambient_conditional_use_can_differ.
+
 Theorem derived_rankers_order_free :
   forall (Gn P A : Type) (derive : Z -> Gn) (spawn : nat -> Gn) (out : Gn -> P -> A)
          st1 st2 rs1 rs2 i j r u,
@@ -114,6 +126,14 @@ Theorem chunking_irrelevant_partial : forall (A B : Type) (f : A -> B) (h : A ->
   joined_rows r c rows = List.concat (map r rows).
 Proof. exact chunking_irrelevant_l. Qed.
 Print Assumptions chunking_irrelevant_partial.
+
+(* the initial embedding matrices: rows filled in order from the training generator *)
+Theorem sequential_fill_blocking_irrelevant :
+  (forall (G A : Type) (draw : G -> A * G) (sizes : list nat) (g : G),
+     fill_blocks draw sizes g = fill draw (list_sum sizes) g) /\
+  fill_children demo_draw demo_child 0 [4] 7%Z <> fill_children demo_draw demo_child 0 [2; 2] 7%Z.
+Proof. exact (conj (@fill_blocks_seq) (proj1 children_depend_on_block_count)). Qed.
+Print Assumptions sequential_fill_blocking_irrelevant.
 
 (* non-vacuity: a closed generated function with draws and calls; concrete rankers and chunks *)
 Example c11_nonvacuous :
